@@ -84,7 +84,7 @@ Proof. vm_compute. reflexivity. Qed.
 (* completeness: a value below 2^nb with the accumulators the gadget computes satisfies every row *)
 From PlonkV Require Import Composer.RangeComplete.
 Theorem C09_range_complete : forall (PR : PrimeR) w nb base (asg : assignment) v,
-  (0 <= v < 2 ^ Z.of_nat nb)%Z -> (nb <= 254)%nat ->
+  (0 <= v < 2 ^ Z.of_nat nb)%Z ->
   asg W_ZERO = fzero -> asg w = F v ->
   (if Nat.even nb then
      forall j, (j < range_count nb)%nat -> asg (base + j)%nat = F (acc_Z v (range_count nb) j)
@@ -97,7 +97,7 @@ Theorem C09_range_complete : forall (PR : PrimeR) w nb base (asg : assignment) v
   block_sat (range_blk w nb base) asg.
 Proof. exact @range_complete. Qed.
 Check C09_range_complete : forall (PR : PrimeR) w nb base (asg : assignment) v,
-  (0 <= v < 2 ^ Z.of_nat nb)%Z -> (nb <= 254)%nat ->
+  (0 <= v < 2 ^ Z.of_nat nb)%Z ->
   asg W_ZERO = fzero -> asg w = F v ->
   (if Nat.even nb then
      forall j, (j < range_count nb)%nat -> asg (base + j)%nat = F (acc_Z v (range_count nb) j)
